@@ -70,6 +70,9 @@ def _rec(s, **kw):
     from Bio.Seq import Seq
     from moclo.record import CircularRecord
 
+    if len(s) % 3 != 1 and "letter_annotations" not in kw:
+        # two records in three carry per-letter tracks (a list-valued and a string-valued one), as sequencing reads do
+        kw["letter_annotations"] = {"q": list(range(len(s))), "ss": "".join("<>."[j % 3] for j in range(len(s)))}
     return CircularRecord(Seq(s), "x", **kw)
 
 
@@ -256,5 +259,22 @@ def execute(mat, ctx):
         if snap(base) != before:
             ctx.violation("wrap-aliases:%s" % name, "editing %s of the wrapped copy changed the original record" % name)
             before = snap(base)
+    # originals whose containers are (partly) empty: a bare record, and one with features only
+    for kind2, sparse in (("bare", SeqRecord(Seq(s), "bare")),
+                          ("features-only", SeqRecord(Seq(s), "fo", features=[SeqFeature(FeatureLocation(0, n, 1), type="misc")]))):
+        if mat["i"] % 2:
+            sparse = CircularRecord(sparse)
+        before = snap(sparse)
+        c2 = CircularRecord(sparse)
+        for name, edit in (("dbxrefs", lambda: c2.dbxrefs.append("e")),
+                           ("feature-list", lambda: c2.features.append(SeqFeature(FeatureLocation(0, 1, 1), type="extra"))),
+                           ("annotations-key", lambda: c2.annotations.__setitem__("new", 1)),
+                           ("letter-annotations-key", lambda: c2.letter_annotations.__setitem__("q", list(range(n))))):
+            ctx.count("copy_checks")
+            ctx.count("evaluations")
+            edit()
+            if snap(sparse) != before:
+                ctx.violation("wrap-aliases:%s:%s-original" % (name, kind2), "editing %s of the wrapped copy of a %s record changed the original record" % (name, kind2))
+                before = snap(sparse)
     ctx.nontrivial(["ops", s])
     ctx.sample({"kind": "ops", "record": s, "operands": sorted(operands), "edits": [e[0] for e in edits]}, cap=1)
